@@ -275,3 +275,20 @@ def same(a, b):
     except ValueError:
         return False
     return bool(np.all((a == b) | (np.isnan(a) & np.isnan(b))))
+
+
+def agree(ctx, a, b, what="value"):
+    """bit-exact agreement expected; a relative difference below 1e-12 (a correct implementation that orders its floating-point
+    operations differently) is counted `ulp_diff` and tolerated, anything else is a disagreement"""
+    if same(a, b):
+        return True
+    x, y = np.asarray(a, dtype=float), np.asarray(b, dtype=float)
+    try:
+        x, y = np.broadcast_arrays(x, y)
+    except ValueError:
+        return False
+    ok = (x == y) | (np.isnan(x) & np.isnan(y)) | (np.isfinite(x) & np.isfinite(y) & (np.abs(x - y) <= 1e-12 * np.maximum(1.0, np.maximum(np.abs(x), np.abs(y)))))
+    if bool(np.all(ok)):
+        ctx.hit(f"ulp_diff:{what}")
+        return True
+    return False
